@@ -369,12 +369,18 @@ where F::Sample: dasp_sample::Duplex<f64> {
 
     let fin = matches!(c.ops.last(), Some(Op::Src));
     let body = if fin { &c.ops[..c.ops.len() - 1] } else { &c.ops[..] };
+    // a setter only stores the ratio: it pulls nothing and does not change what is_exhausted() reports
+    macro_rules! setter_obs { ($e0:expr) => { {
+        let (pl, e1) = (pulls.get(), dut.exh());
+        obs.push(format!("-/{}", pl)); evals += 1;
+        if pl == last_pulls && e1 == $e0 { st.oracle_ok(1); } else { st.oracle_fail("a ratio setter pulled source frames or changed the exhaustion report", &case_text, &format!("pulls {} exhausted {}", last_pulls, $e0), &format!("pulls {} exhausted {}", pl, e1)); }
+    } } }
     for o in body {
         match *o {
             Op::Src => unreachable!(),
-            Op::SetP(s) => { dut.set_p(s); ratio = s; obs.push("-".into()); evals += 1; continue; }
-            Op::SetS(s) => { dut.set_s(s); ratio = 1.0 / s; obs.push("-".into()); evals += 1; continue; }
-            Op::SetH(a, b) => { dut.set_h(a, b); ratio = a / b; obs.push("-".into()); evals += 1; continue; }
+            Op::SetP(s) => { let e0 = dut.exh(); dut.set_p(s); ratio = s; setter_obs!(e0); continue; }
+            Op::SetS(s) => { let e0 = dut.exh(); dut.set_s(s); ratio = 1.0 / s; setter_obs!(e0); continue; }
+            Op::SetH(a, b) => { let e0 = dut.exh(); dut.set_h(a, b); ratio = a / b; setter_obs!(e0); continue; }
             Op::Until(cap) => {
                 let cnt = dut.until(cap);
                 evals += cnt as u64 + 1;
